@@ -36,6 +36,8 @@ type SessionSpec struct {
 }
 
 type History struct {
+	Config   int           `json:"config,omitempty"` // router configuration (worker.go: startHost)
+	Base     string        `json:"base,omitempty"`   // name of the generated history this is a per-configuration copy of
 	Name     string        `json:"name"`
 	Stream   string        `json:"stream"`
 	Sessions []SessionSpec `json:"sessions"`
